@@ -27,7 +27,7 @@ def lemire_rows(f, tier, seed, base, n_seeded=6, small=False):
     lo, hi = LEMIRE_RANGE[f]
     core = {lo - 1, lo, lo + 1, -28, -27, -5, -1, 0, 1, 22, 23, 27, 28, 55, 56, hi - 1, hi, hi + 1}
     if small and tier != "thorough":
-        core = {lo, -28, -27, 0, 23, 28, 55, 56, hi}
+        core = {lo, -27, 0, 28, hi} if f == "f64" else {lo, 0, hi}
     if tier == "thorough":
         rows = set(range(lo - 1, hi + 2))
     else:
